@@ -166,4 +166,15 @@ TEXT = {
         "note": "PARTIAL: a race detector run is not a proof - it reports only races that occur in the executions explored (12 scenarios + ~75 pool workloads per quick run, more in thorough). "
                 "Races inside dependencies and the memory model below mutex/atomic/channel edges are outside. The static access-discipline table planned in DESIGN.md 4/C16(b) is not built.",
     },
+    "C20": {
+        "text": "Lean 4 theorems (Props/C20.lean) over the model of the deprecated BadgerDB middleware (apply handlers + getResource of both packages, composed with the event methods): an event "
+                "that cannot be applied (index out of range, create on an existing resource or with a default, change/remove on a missing resource without default, wrong type, negative index) "
+                "publishes nothing and leaves storage unchanged; nothing changes without a published event; the served value is the fold of the successfully applied events for every history; "
+                "a change sets exactly the given keys and the old values handed to listeners are exactly the previous stored values; a change that changes nothing is silent; the data handed "
+                "to delete listeners is the previous stored value; add/remove are list insertion/deletion. Tie: both packages (middleware.BadgerDB, resbadger Model/Collection) on a real "
+                "BadgerDB: random event sequences on models and collections with and without default, get after every event, database closed and reopened in between and at the end; "
+                "publication, failure, listener old values / delete data and the served value compared with the model and with the fold of the published events.",
+        "note": "Trusted: Lean kernel; transcription of both packages into one model (they differ only in deleting a resource that is not stored: resbadger fails, middleware publishes); BadgerDB; "
+                "encoding/json and reflect.DeepEqual (values are JSON primitives). resbadger index sets, typed values (Type option) and QueryCollection are not covered.",
+    },
 }
